@@ -312,6 +312,54 @@ def enum_unmerges(seed):
                 if got != want and len(fails) < 4:
                     fails.append({"model": model, "detail": f"MergeEngine.uninstall({'offset=<root>' if with_offset else 'recorded paths under <root>, no offset'}): the uninstall set is {got}; "
                                                             f"the package recorded {want} and all of them are on disk under the root"})
+        # a whole unmerge through the real engine with the base-system protection and the unmerge trigger registered, on roots that are reached
+        # through symbolic links: the root itself (ROOT -> real directory) and a parent inside it (usr -> sys/usr).  Every recorded file goes,
+        # every recorded directory that is left empty goes -- except the protected base directories, under whatever name the root is reached
+        from pkgcore.merge import triggers as _mt
+        from pkgcore.fs import fs as _fs
+        PROTECTED = ("usr", "usr/lib", "usr/lib64", "usr/lib32", "usr/bin", "usr/sbin", "bin", "sbin", "lib", "lib32", "lib64", "etc", "var", "home", "root")
+        rec_dirs = ["usr", "usr/bin", "usr/lib64", "etc", "usr/share", "usr/share/tool", "var", "var/lib", "var/lib/tool"]
+        rec_files = ["usr/bin/tool", "usr/lib64/libtool.so", "etc/tool.conf", "usr/share/tool/data", "var/lib/tool/state"]
+        for layout in ("plain root", "root reached through a symbolic link", "usr is a symbolic link to sys/usr inside the root"):
+            cases += 1
+            base = os.path.join(scratch, "sl-" + layout.split()[0] + str(cases))
+            real = os.path.join(base, "real_root")
+            phys = (lambda rel: os.path.join(real, "sys", rel) if rel.split("/")[0] == "usr" else os.path.join(real, rel)) if layout.startswith("usr is") else (lambda rel: os.path.join(real, rel))
+            for dd in rec_dirs:
+                os.makedirs(phys(dd), exist_ok=True)
+            for ff in rec_files:
+                open(phys(ff), "w").write("x")
+            if layout.startswith("usr is"):
+                os.symlink("sys/usr", os.path.join(real, "usr"))
+            root = real
+            if layout.startswith("root reached"):
+                root = os.path.join(base, "root")
+                os.symlink("real_root", root)
+            own = dict(strict=False, uid=os.getuid(), gid=os.getgid())
+            pkg = _types.SimpleNamespace(contents=contents.contentsSet([_fs.fsDir("/" + x, mode=0o755, **own) for x in rec_dirs] + [_fs.fsFile("/" + x, mode=0o644, **own) for x in rec_files]), cpvstr="cat/tool-1")
+            tmp = os.path.join(base, "tmp")
+            os.makedirs(tmp)
+
+            class _Obs2:
+                def __getattr__(self, n):
+                    return lambda *a, **k: None
+            model = {"layout": layout, "recorded_directories": rec_dirs, "recorded_files": rec_files}
+            try:
+                eng = engine.MergeEngine.uninstall(tmp, pkg, offset=root, observer=_Obs2(), disable_plugins=True)
+                _mt.BaseSystemUnmergeProtection().register(eng)
+                _mt.unmerge().register(eng)
+                for hook in ("sanity_check", "pre_unmerge", "unmerge", "post_unmerge", "final"):
+                    getattr(eng, hook)()
+            except Exception as e:
+                if len(fails) < 4:
+                    fails.append({"model": model, "detail": f"unmerging through the real engine ({layout}) raised {type(e).__name__}: {e}"})
+                continue
+            left_files = [x for x in rec_files if os.path.lexists(phys(x))]
+            lost = [x for x in rec_dirs if x in PROTECTED and not os.path.isdir(phys(x))]
+            kept = [x for x in rec_dirs if x not in PROTECTED and os.path.isdir(phys(x))]
+            if (left_files or lost or kept) and len(fails) < 4:
+                fails.append({"model": model, "detail": f"unmerge through the real engine, {layout}: recorded files still there {left_files}; protected base directories removed {lost}; "
+                                                        f"recorded, emptied, unprotected directories still there {kept}"})
         # a listed directory that is gone from the live root, next to listed entries whose names merely begin like it (opt/app vs opt/app-data)
         for gone_dir in ("opt/app", "usr/lib", "opt"):
             for with_offset in (True, False):
@@ -452,7 +500,7 @@ def enum_unmerges(seed):
                     fails.append({"model": model, "detail": f"MergeEngine.{mode} (old package {model['old_package']}" + (f", new package {model['new_package']}" if mode == "replace" else "") + "): " + "; ".join(probs)})
     finally:
         shutil.rmtree(scratch, ignore_errors=True)
-    return {"name": "C20.unmerges.bounded_enumeration", "bound": "40 seeded scratch roots: an old package of 3..6 of 9 entries (files, hardlinks, symlinks, fifos, nested directories under usr / etc / opt) merged, "
+    return {"name": "C20.unmerges.bounded_enumeration", "bound": "3 whole unmerges through the real engine with BaseSystemUnmergeProtection and the unmerge trigger registered (plain root, root reached through a symbolic link, usr -> sys/usr inside the root); 40 seeded scratch roots: an old package of 3..6 of 9 entries (files, hardlinks, symlinks, fifos, nested directories under usr / etc / opt) merged, "
             "optionally a replacing package of 4 entries merged over it, foreign files dropped into shared directories, then get_remove_cset + BaseSystemUnmergeProtection + unmerge_contents; snapshots compared; 6 roots x the engine's uninstall set with and without an offset; 3 roots with a listed directory gone next to entries whose names begin like it; 8 roots whose protected base path (/lib, /bin, /usr/lib, /sbin) is recorded as a directory or as a symlink", "cases": cases, "failures": fails}
 
 
